@@ -10,7 +10,8 @@ run_cmd do
   let env ← getEnv
   let mut names : Array Name := #[]
   for (n, ci) in env.constants.toList do
-    if (`Bubus.Thm).isPrefixOf n && !n.isInternal then
+    -- (equation lemmas `f.eq_1 …` that Lean generates for definitions made in this namespace are not property theorems)
+    if (`Bubus.Thm).isPrefixOf n && !n.isInternal && !(n.getString!.startsWith "eq_") then
       match ci with
       | .thmInfo _ => names := names.push n
       | _ => pure ()
